@@ -741,3 +741,30 @@ def p_c19(ctx):
                 "count / for_each; both renderings are loaded and compared with each other and with TargetsP / the item tree",
         "traces_validated_against_impl": len(files), "trace_events": events, "samples": [{"doc": e0["doc"], "native": e0["native"], "json": e0["json"]}], "exhaustive": True},
         assumptions=["ranges and block-local (self / count / each) targets are excluded, as the statement says", "origins are compared by address (constraints lose precision in JSON strings)"])
+
+
+@pipeline("C08")
+def p_c08(ctx):
+    cases, n = tlc_cases(ctx, "MC_ValComp.tla", "MC_ValComp.cfg", "mcvalcomp", workers=4)
+    pre = os.path.join(ctx.work, "vc")
+    p = ctx.run_hx(["valcomp", "-cases", cases, "-out", pre])
+    info = json.loads(p.stdout.strip().splitlines()[-1])
+    files = sorted(glob.glob(pre + ".*.ndjson"))
+    bad, events = ctx.validate_traces("TraceValComp.tla", "TraceValComp.cfg", files)
+    viols = []
+    ncand = 0
+    for f in files:
+        for x in open(f):
+            ncand += len(json.loads(x)["cands"])
+    for b in bad:
+        e = json.loads(open(b["file"]).read().splitlines()[b["l"] - 1])
+        viols.append({"what": b["what"], "replay": {"pipeline": "valcomp", "case": {k: e[k] for k in ("cons", "typed", "place")}, "cands": e["cands"]}})
+    e0 = [json.loads(x) for x in open(files[0])][5]
+    finish(ctx, viols, {
+        "evaluations": ncand, "distinct_nontrivial": info["cases"],
+        "rule": "case = (constraint at the cursor: any-expression of 7 types, reference of 3 types, literal, keyword, list of references, set of any; typed text out of 20 prefixes incl. "
+                "partial addresses, self., function and keyword prefixes; placement: root, inside a block with self references on / off, inside the block whose attribute is being edited); "
+                "evaluations = candidates judged; every reference candidate that fits by itself is accepted and go-to-definition asked at the inserted text",
+        "traces_validated_against_impl": len(files), "trace_events": events, "samples": [{k: e0[k] for k in ("cons", "typed", "place", "cands")}], "exhaustive": True},
+        assumptions=["whether a declared / return type converts to the expected type is cty's convert, evaluated by the harness and logged (conv / fnconv tables)",
+                     "reference and function candidates are checked for soundness (the statement says 'every candidate is ...'), keyword / boolean candidates for exactness"])
